@@ -834,8 +834,9 @@ func runC16(w *World, r *Report) {
 		r.Check(ok, "C16.tasks-carry-options", "executor passes task.option to the node", ex.Pos(), "runWrapper(..., task.option...)", "the node is invoked without its options")
 	}
 
+	shareRule(w, r, "C16.option-lists-are-copied", "an option list handed on is never appended to in place: what GetComposeOptions returns and what the agents append their own options to is a slice of its own, or the option list of one call ends up in storage another call reads", 1, "C09", "C09.append-alias")
 	// ---- convert-option
-	r.Rule("C16.convert-option", "convertOption: comma-ok assertion, mismatch returns an error", 1)
+	r.Rule("C16.convert-option", "convertOption: comma-ok assertion, mismatch returns an error (no success return is reachable from the failed assertion)", 2)
 	co := w.Fn("compose", "convertOption")
 	okc, bad := false, false
 	instrs(co, func(in ssa.Instruction) {
@@ -848,6 +849,31 @@ func runC16(w *World, r *Report) {
 		}
 	})
 	r.Check(okc && !bad, "C16.convert-option", "convertOption uses comma-ok", co.Pos(), "mismatch is an error", "a wrong option type panics inside the node wrapper")
+	// … and the mismatch IS an error: from the not-ok side of the assertion no success return is reachable (extractOption
+	// looks at the first element of a list only, this conversion is what turns a mixed list into an error)
+	instrs(co, func(in ssa.Instruction) {
+		ta, ok := in.(*ssa.TypeAssert)
+		if !ok || !ta.CommaOk {
+			return
+		}
+		for _, ref := range *ta.Referrers() {
+			e, isE := ref.(*ssa.Extract)
+			if !isE || e.Index != 1 {
+				continue
+			}
+			for _, r2 := range *e.Referrers() {
+				iff, isIf := r2.(*ssa.If)
+				if !isIf {
+					continue
+				}
+				reach, wit := pathFromBlock(pathQuery{fn: co, goal: func(x ssa.Instruction) bool {
+					ret, isRet := x.(*ssa.Return)
+					return isRet && len(ret.Results) == 2 && isNilConst(ret.Results[1])
+				}}, iff.Block().Succs[1])
+				r.Check(!reach, "C16.convert-option", "convertOption: an option of another type fails the conversion", ta.Pos(), "no success return behind the failed assertion", "an element of another option type is skipped ("+wit+"): WithLambdaOption(optA, optB).DesignateNode(\"a\") succeeds and drops optB silently — an option of the wrong type is no longer an error, and an undesignated mixed list delivers optB to no node")
+			}
+		}
+	})
 
 	// ---- reflect-zero
 	r.Rule("C16.reflect-zero", "no method call on reflect.TypeOf(x) of a possibly nil option value without a nil guard", 0)
